@@ -98,6 +98,8 @@ def script(P):
     S.append(("interior_edges", lambda m: sorted(_t(m.interior_edges))))
     S.append(("boundary_vertices", lambda m: sorted(_t(m.boundary_vertices))))
     S.append(("interior_vertices", lambda m: sorted(_t(m.interior_vertices))))
+    S.append(("mesh_kind", lambda m: [_t(m.is_triangular()), _t(m.is_quad())]))
+    S.append(("ith_vertex_of_face", lambda m: [[_t(m.ith_vertex_of_face(f, i)) for i in range(len(m.faces[f]))] for f in range(len(m.faces))]))
     return S
 
 
@@ -264,3 +266,5 @@ def verify(ctx, table, ref, edges, P, sorted_on, monitor="conn", face_corners=No
         cmp_list("interior_edges", ie)
     cmp_list("boundary_vertices", sorted(ref.border_vertices))
     cmp_list("interior_vertices", sorted(set(range(ref.nV)) - ref.border_vertices))
+    cmp_list("mesh_kind", [all(len(f) == 3 for f in F), all(len(f) == 4 for f in F)])
+    cmp_list("ith_vertex_of_face", [list(f) for f in F])
